@@ -19,7 +19,7 @@ RULE = ('seeded generation per family (filter callable/equals/not_equals with se
 ASSUMPTIONS = [
     'unpivot keys are derived from the same full match that selected the field (match.expand of the key template)',
     'primary-key values are hashable (scalars, None)',
-    'filter with neither condition nor equals/not_equals is not generated',
+    'filter_rows without any condition (bare, or with empty equals and not_equals) keeps no row: PROCESSORS.md, "If none of the conditions validate, the row will be discarded"',
 ]
 REQUIRED_COUNTERS = ['rows_compared']
 FAMILIES = ['filter_callable', 'filter_equals', 'deduplicate', 'unpivot']
@@ -200,10 +200,13 @@ def run_case(case):
                     out.append(o)
                 return out
             eq, neq = conds(), conds()
-            if not eq and not neq:
-                eq = [{'b': 1}]
-            step = d.filter_rows(equals=copy.deepcopy(eq), not_equals=copy.deepcopy(neq),
-                                 resources=copy.deepcopy(selector))
+            if not eq and not neq and rng.random() < 0.5:
+                # no condition at all (PROCESSORS.md: "If none of the conditions validate, the row will be discarded"):
+                # no row satisfies an empty disjunction, the selected resources come out empty
+                step = d.filter_rows(resources=copy.deepcopy(selector))
+            else:
+                step = d.filter_rows(equals=copy.deepcopy(eq), not_equals=copy.deepcopy(neq),
+                                     resources=copy.deepcopy(selector))
             cfg = {'equals': eq, 'not_equals': neq}
             cov['config']['filter/eq%d/neq%d' % (len(eq), len(neq))] = 1
             ref = lambda F, R: (F, refmodel.filter_rows(R, equals=eq, not_equals=neq))   # noqa: E731
